@@ -170,7 +170,7 @@ func maxTag(i ledgerState, r refState) int {
 }
 
 func checkC18(w *World, r *Report) {
-	r.Explanation = "Structural clause of C18: (L-1) the SSA of the ledger package (generic origins of SetFinality/GetFinality/DelFinality/Commit, Set/Get/Del/Read and everything they call, including every memItems helper) is evaluated by an abstract interpreter over the finite abstract state of ONE key — per overlay: cached tag, updated tag, occurrences in the removed-key list; tree: absent or tag — and all operation sequences are explored to closure against the reference (a map with a consensus overlay and a mempool overlay of pending writes/tombstones): every read returns what the reference returns (a write wins over the overlay's own earlier tombstone while it is pending; cancelling the write reveals the tombstone or the committed value again), a commit leaves the tree equal to the consensus overlay's net effect and empties both overlays' pending state, mempool operations never change what consensus reads or commits; (L-2) the IAVL tree is mutated only inside FinalityLedger.Commit, removals before updates; tree iterators read the tree only; (L-3) no version is ever deleted or overwritten in the module and ImmutableLedgerAt(n) loads exactly version n into a fresh tree with fresh overlays, FinalityLedger.ImmutableLedgerAt delegating to it on every path; (L-4) a key buffer handed to tree.Set / tree.Remove inside a loop is allocated inside that loop (the tree keeps the bytes); (L-5) every module function whose error result is compared by identity with a sentinel (ErrNotFoundResult, ErrUnknownTrxType) hands back the sentinel itself, never a wrapped copy."
+	r.Explanation = "Structural clause of C18: (L-1) the SSA of the ledger package (generic origins of SetFinality/GetFinality/DelFinality/Commit, Set/Get/Del/Read and everything they call, including every memItems helper) is evaluated by an abstract interpreter over the finite abstract state of ONE key — per overlay: cached tag, updated tag, occurrences in the removed-key list; tree: absent or tag — and all operation sequences are explored to closure against the reference (a map with a consensus overlay and a mempool overlay of pending writes/tombstones): every read returns what the reference returns (a write wins over the overlay's own earlier tombstone while it is pending; cancelling the write reveals the tombstone or the committed value again), a commit leaves the tree equal to the consensus overlay's net effect and empties both overlays' pending state, mempool operations never change what consensus reads or commits; (L-2) the IAVL tree is mutated only inside FinalityLedger.Commit, removals before updates; tree iterators read the tree only; (L-3) no version is ever deleted or overwritten in the module and ImmutableLedgerAt(n) loads exactly version n into a fresh tree with fresh overlays, FinalityLedger.ImmutableLedgerAt delegating to it on every path; (L-4) a key buffer handed to tree.Set / tree.Remove inside a loop is allocated inside that loop (the tree keeps the bytes); (L-5) every module function whose error result is compared by identity with a sentinel (ErrNotFoundResult, ErrUnknownTrxType) hands back the sentinel itself, never a wrapped copy. (L-8) the removed-key list is a multiset: appendRemovedKey appends on every path and delRemovedKey takes back at most one entry per call (the cancel-delete operations are not run by the interpreter of L-1)."
 	r.NotCovered = "iavl itself; reopen after close (needs the store); interaction between different keys beyond the per-key independence of maps and list membership; concurrency inside the ledger."
 
 	l1(w, r)
@@ -179,6 +179,8 @@ func checkC18(w *World, r *Report) {
 	l5(w, r)
 	l6(w, r)
 	l7(w, r)
+	l8(w, r)
+	r.Floor("L-8", 1, "removed-key pairing")
 	r.Floor("L-7", 2, "snapshot / commit exclusion")
 	r.Floor("L-6", 1, "what marks an item for the next commit")
 	r.Floor("L-5", 1, "sentinel errors compared by identity")
@@ -1058,4 +1060,63 @@ func l3(w *World, r *Report) {
 		r.Check(okW, "L-3", tn+".ImmutableLedgerAt:delegates", "every successful answer comes from SimpleLedger.ImmutableLedgerAt for the requested version", tn+".ImmutableLedgerAt can answer without loading the requested version (a version that is not saved yet would be served from the working tree)", fnSite(w, wf))
 	}
 	r.Check(tree, "L-3", "ImmutableLedgerAt:own-tree", "the returned ledger wraps the tree object created for this request", "the returned ledger wraps a tree object that was not created for this request (a shared or cached iavl tree keeps the 'latest version' it saw when it was opened and serves later state for an old height)", fnSite(w, fn))
+}
+
+// l8 — the removed-key list is a multiset: every successful delete of an overlay
+// adds one entry (also for a key that is already listed: delete, re-create, delete)
+// and CancelDel / CancelDelFinality take back exactly one. The abstract
+// interpreter of L-1 does not run the cancel-delete operations, so the pairing is
+// decided structurally: appendRemovedKey appends on every path, delRemovedKey
+// removes at most one entry per call.
+func l8(w *World, r *Report) {
+	ap := w.Method(pkgLedger, "memItems", "appendRemovedKey")
+	dl := w.Method(pkgLedger, "memItems", "delRemovedKey")
+	if ap == nil || dl == nil {
+		r.Undecided("L-8", "removed-keys", "memItems.appendRemovedKey / delRemovedKey not found")
+		return
+	}
+	var app *ssa.Store
+	for _, st := range w.storesTo(ap, "recv.removedKeys") {
+		if strings.HasPrefix(w.Canon(st.Val), "append(recv.removedKeys, ") {
+			app = st
+		}
+	}
+	bad := ""
+	if app == nil {
+		bad = "no append to the removed-key list"
+	} else {
+		for _, b := range ap.Blocks {
+			if ret, isR := lastInstr(b).(*ssa.Return); isR && b != ap.Recover && !instrDominates(app, ret) {
+				bad = "the return at " + w.InstrPos(ret) + " is reached without recording the delete"
+			}
+		}
+	}
+	r.Check(bad == "", "L-8", "appendRemovedKey:every-delete-recorded", "every call records one entry, also for a key that is already listed", "a delete is not always recorded in the removed-key list (delete, re-create, delete leaves one entry, and cancelling the second delete wipes out both: reads fall through to the committed value and the commit keeps the key): "+bad, fnSite(w, ap))
+	// at most one entry removed per call: the removing store is followed by a return
+	// without passing the loop head again
+	okOne := true
+	nRm := 0
+	for _, st := range w.storesTo(dl, "recv.removedKeys") {
+		nRm++
+		hdr := loopHeaderOf(st.Block())
+		if hdr == nil {
+			continue
+		}
+		seen := map[*ssa.BasicBlock]bool{}
+		var walk func(b *ssa.BasicBlock)
+		walk = func(b *ssa.BasicBlock) {
+			for _, sc := range b.Succs {
+				if sc == hdr {
+					okOne = false
+					return
+				}
+				if !seen[sc] {
+					seen[sc] = true
+					walk(sc)
+				}
+			}
+		}
+		walk(st.Block())
+	}
+	r.Check(okOne && nRm >= 1, "L-8", "delRemovedKey:takes-back-one", "a cancelled delete takes back exactly one entry", "delRemovedKey can remove more than one entry (or none): a cancelled delete would cancel earlier deletes of the key as well", fnSite(w, dl))
 }
